@@ -81,6 +81,8 @@ R1 = {
     ],
     "C13": [
         M("algo/Signed.tla", "algo/Signed_B5.cfg"), M("algo/Signed.tla", "algo/Signed_B7.cfg"),
+        M("algo/SignedMixed.tla", "algo/SignedMixed_L3R5.cfg"), M("algo/SignedMixed.tla", "algo/SignedMixed_L5R3.cfg"), M("algo/SignedMixed.tla", "algo/SignedMixed_L4R4.cfg"),
+        M("algo/SignedMixed.tla", "algo/SignedMixed_L6R4.cfg"), M("algo/SignedMixed.tla", "algo/SignedMixed_L4R7.cfg"), M("algo/SignedMixed.tla", "algo/SignedMixed_L7R7.cfg", tiers=T),
         M("algo/Signed.tla", "algo/Signed_B9.cfg", tiers=T, workers=12),
     ],
     "C14": [
